@@ -56,6 +56,26 @@ def make_input(rng):
             queries.append("-- name: Del%s%d :exec\nDELETE FROM %s WHERE id = $1;" % (t.title().replace("_", ""), i, t))
         else:
             queries.append("-- name: Ins%s%d :one\nINSERT INTO %s (%s) VALUES (%s) RETURNING *;" % (t.title().replace("_", ""), i, t, ", ".join(cols), ", ".join("$%d" % (k + 1) for k in range(len(cols)))))
+    if rng.random() < 0.3:
+        # one function name in two schemas with different result types, called by two queries: what each call resolves
+        # to must not depend on which of the queries is compiled first (or in which file it stands)
+        t0 = names[0]
+        decls += ["CREATE SCHEMA metric;", "CREATE SCHEMA imperial;",
+                  "CREATE FUNCTION metric.height_of(int) RETURNS int AS $$ SELECT 1 $$ LANGUAGE sql;",
+                  "CREATE FUNCTION imperial.height_of(int) RETURNS text AS $$ SELECT '1' $$ LANGUAGE sql;",
+                  "CREATE FUNCTION height_of(int) RETURNS boolean AS $$ SELECT true $$ LANGUAGE sql;"]
+        for sc_ in rng.sample(["metric.", "imperial.", ""], rng.randint(2, 3)):
+            queries.append("-- name: Height%s :many\nSELECT %sheight_of(1) FROM %s;" % (sc_.strip(".").title() or "Plain", sc_, t0))
+    if rng.random() < 0.3:
+        # a table and its namesake in another schema (other column types) in one statement; the parameter is compared with a
+        # column qualified by the bare table name: which table types it must not vary from run to run
+        t0 = names[0]
+        if "CREATE SCHEMA archive;" not in decls:
+            decls.append("CREATE SCHEMA archive;")
+        decls.append("CREATE TABLE archive.%s (id text, name int NOT NULL, n uuid);" % t0)
+        c0 = rng.choice(["id", tables[t0][1]])
+        queries.append("-- name: Live%s :many\nSELECT %s.id FROM %s WHERE %s.%s > $1 AND NOT EXISTS (SELECT 1 FROM archive.%s WHERE archive.%s.id IS NULL);"
+                       % (t0.title().replace("_", ""), t0, t0, t0, c0, t0, t0))
     flags = {f: True for f in rng.sample(["emit_interface", "emit_json_tags", "emit_db_tags", "emit_prepared_queries"], rng.randint(0, 3))}
     ov = []
     if rng.random() < 0.5:
@@ -103,7 +123,9 @@ def run(tier, seed):
         qperm = list(queries); rng.shuffle(qperm)
         jobs.append(job(decls, {"q.sql": qperm}, flags, ov))
         tys = [d for d in decls if d.startswith("CREATE TYPE")]
-        dperm = rng.sample(tys, len(tys)) + rng.sample([d for d in decls if d.startswith("CREATE TABLE")], len([d for d in decls if d.startswith("CREATE TABLE")]))
+        schemas = [d for d in decls if d.startswith("CREATE SCHEMA")]                        # schemas first, functions last, as given
+        rest = [d for d in decls if not d.startswith(("CREATE TYPE", "CREATE TABLE", "CREATE SCHEMA"))]
+        dperm = schemas + rng.sample(tys, len(tys)) + rng.sample([d for d in decls if d.startswith("CREATE TABLE")], len([d for d in decls if d.startswith("CREATE TABLE")])) + rest
         jobs.append(job(dperm, {"q.sql": queries}, flags, ov))
         k = rng.randrange(len(queries))
         moved = {"q.sql": [q for j, q in enumerate(queries) if j != k] or [], "r.sql": [queries[k]]}
